@@ -8,6 +8,7 @@ import (
 	"github.com/huderlem/poryscript/parser"
 
 	"pmc/internal/comp"
+	"pmc/internal/dict"
 	"pmc/internal/harness"
 )
 
@@ -225,6 +226,9 @@ func runC06(tier string) int {
 	r.Set("long_files_max_inline_arguments", maxK)
 	// long lists that differ only in the last characters of their last step (see c14.go)
 	massLongLists(r, "C06", tier)
+	// prepared pairs of contents with equal 64-bit digests
+	hashCollisionFiles(r, "C06")
+	massTextsFile(r, "C06", tier)
 	completed := c06Enumerate(r, maxSlots, rotations, func(data []datum, dist []int, rot, clash int) { c06Eval(r, data, dist, rot, clash) })
 	if completed < maxSlots {
 		r.NotExhaustive(fmt.Sprintf("completed files with <= %d inline arguments of planned <= %d", completed, maxSlots))
@@ -235,13 +239,16 @@ func runC06(tier string) int {
 	r.Assume("names are <owner>_Text_<n> / <owner>_Movement_<n>, n counting the owner's new contents in source order of first appearance; content of a moves() is its written, expanded step list",
 		"identical content = identical text after terminator and format() processing and identical string type")
 	return r.Finish(r.Get("evaluations"), r.Get("nontrivial"),
-		"every file with N inline arguments distributed over 3 owners (two scripts and an inline map script, <= 3 each; in odd rotations the map script's first argument sits in a table entry written before the plain inline script) x every assignment of 25 datum kinds (contents ending in terminator characters, plain / already-terminated / formatted / other text, ascii, braille and custom types incl. typed texts whose final literal equals a plain one, one literal under six format() parameter sets of which two give the same result, 9 moves() spellings incl. lists that differ only in the length of their last run or whose run-length spelling collides with another step name) x context rotations over 13 contexts (statement, if, while, switch case, AutoVar condition, selected poryswitch case, '_' case after an unselected one, do-while condition, AutoVar leaf in a parenthesised / negated group followed by an operator, elif condition, AutoVar switch operand, second of two inline data in one command) x {no user name, a user text, a user movement named like a generated label of the first script or of the inline map script, before or after the scripts (rotating), a user text / movement whose name is near a generated label without being one (zero-padded, other case, hex)}, every file defining constants named like the text contents and movement steps; plus long files with K pairwise different inline arguments for every K up to the bound in the coverage (5 text/movement patterns x 3 owner splits x 2 context rotations); plus one script with a moves() list of 41 steps for every 2-character (thorough: and 3-character) ending of its last step name over [a-z0-9_], each of which must get a block of its own; non-trivial = some content is shared between two arguments")
+		"every file with N inline arguments distributed over 3 owners (two scripts and an inline map script, <= 3 each; in odd rotations the map script's first argument sits in a table entry written before the plain inline script) x every assignment of 25 datum kinds (contents ending in terminator characters, plain / already-terminated / formatted / other text, ascii, braille and custom types incl. typed texts whose final literal equals a plain one, one literal under six format() parameter sets of which two give the same result, 9 moves() spellings incl. lists that differ only in the length of their last run or whose run-length spelling collides with another step name) x context rotations over 13 contexts (statement, if, while, switch case, AutoVar condition, selected poryswitch case, '_' case after an unselected one, do-while condition, AutoVar leaf in a parenthesised / negated group followed by an operator, elif condition, AutoVar switch operand, second of two inline data in one command) x {no user name, a user text, a user movement named like a generated label of the first script or of the inline map script, before or after the scripts (rotating), a user text / movement whose name is near a generated label without being one (zero-padded, other case, hex)}, every file defining constants named like the text contents and movement steps and holding explicit text / movement statements (local and exported) with the very contents of its inline arguments; plus long files with K pairwise different inline arguments for every K up to the bound in the coverage (5 text/movement patterns x 3 owner splits x 2 context rotations); plus one script with a moves() list of 41 steps for every 2-character (thorough: and 3-character) ending of its last step name over [a-z0-9_], each of which must get a block of its own; plus prepared pairs of different strings with equal digests under FNV-1 / FNV-1a 64 and small-base polynomial hashes as inline texts and steps of one script; plus one script with 200,000 (thorough 600,000) different inline texts; non-trivial = some content is shared between two arguments")
 }
 
 func c06Eval(r *harness.Run, data []datum, dist []int, rot, clash int) {
 	// Build the file. It starts with constants named like text contents and movement steps (they must not touch either).
 	var sb strings.Builder
 	sb.WriteString("const hi = 42\nconst yo = hi\nconst a = zz\nconst X = X\n")
+	// explicit data statements whose contents equal inline contents of the file (local and exported, before the scripts):
+	// an inline argument is hoisted to a generated label of its own script all the same
+	sb.WriteString("text(local) ZTextHi {\n\t\"hi\"\n}\ntext ZTextYo {\n\t\"yo\"\n}\nmovement(local) ZMovAB {\n\ta\n\tb\n}\nmovement(global) ZMovAA {\n\ta * 2\n}\n")
 	type slot struct {
 		cmd   string
 		owner string
@@ -380,7 +387,7 @@ func c06Eval(r *harness.Run, data []datum, dist []int, rot, clash int) {
 	opts := comp.Opts{Optimize: true, Cmd: cc, Switches: map[string]string{"PV": "SEL"}}
 	if c04Tap != nil {
 		if !expectError {
-			data := map[string]bool{"Map": true, "Map_ON_FRAME": true}
+			data := map[string]bool{"Map": true, "Map_ON_FRAME": true, "ZTextHi": true, "ZTextYo": true, "ZMovAB": true, "ZMovAA": true}
 			if userName != "" {
 				data[userName] = true
 			}
@@ -483,5 +490,117 @@ func c06Eval(r *harness.Run, data []datum, dist []int, rot, clash int) {
 	}
 	if r.WantSample() && shared && len(slots) >= 4 && clash == 0 {
 		r.Sample(map[string]interface{}{"source": src, "expected_labels": wantLabel})
+	}
+}
+
+// hashCollisionFiles: for every prepared pair of different strings with equal digests under a common 64-bit hash (dict.HashCollisions),
+// a script whose commands take the two strings as inline texts (plain and ascii, in both orders) and - where they are
+// identifiers - as moves() steps: every command must get a label whose block holds its own content.
+func hashCollisionFiles(r *harness.Run, id string) {
+	for _, c := range dict.HashCollisions {
+		for order := 0; order < 2; order++ {
+			a, b := c.A, c.B
+			if order == 1 {
+				a, b = b, a
+			}
+			type arg struct{ src, want string }
+			args := []arg{
+				{`"` + a + `"`, `.string "` + a + `$"`}, {`"` + b + `"`, `.string "` + b + `$"`},
+				{`ascii"` + a + `"`, `.ascii "` + a + `\0"`}, {`ascii"` + b + `"`, `.ascii "` + b + `\0"`},
+			}
+			if c09IdentRe.MatchString(a) && c09IdentRe.MatchString(b) {
+				args = append(args, arg{"moves(" + a + ")", a}, arg{"moves(" + b + ")", b}, arg{"moves(w " + a + " w)", "w " + a + " w"}, arg{"moves(w " + b + " w)", "w " + b + " w"})
+			}
+			var sb strings.Builder
+			sb.WriteString("script S {\n")
+			for i, x := range args {
+				fmt.Fprintf(&sb, "\tcmd%d(%s)\n", i, x.src)
+			}
+			sb.WriteString("}\n")
+			src := sb.String()
+			res := comp.Compile(src, comp.Opts{Optimize: true})
+			r.Add("evaluations", 1)
+			r.Add("nontrivial", 1)
+			r.Add("hash_collision_files", 1)
+			fail := func(what string) {
+				r.Report(harness.Violation{Sig: id + ":hash-collision-pair", Summary: fmt.Sprintf("%q and %q (equal digests under %s) as inline data of one script: %s\n  source: %q", a, b, c.Hash, what, src), Replay: map[string]interface{}{"source": src, "output": res.Out, "hash": c.Hash}})
+			}
+			if res.Err != nil || res.Panic != "" {
+				fail(fmt.Sprintf("rejected: %v %s", res.Err, firstLine(res.Panic)))
+				continue
+			}
+			labels := map[string]bool{}
+			for i, x := range args {
+				label := ""
+				for _, l := range strings.Split(res.Out, "\n") {
+					if strings.HasPrefix(l, fmt.Sprintf("\tcmd%d ", i)) {
+						label = strings.TrimPrefix(l, fmt.Sprintf("\tcmd%d ", i))
+					}
+				}
+				blk, ok := blockAfter(res.Out, label)
+				var got string
+				if ok && len(blk) >= 2 {
+					got = strings.TrimSpace(strings.Join(blk[1:], " "))
+					got = strings.TrimSuffix(strings.ReplaceAll(got, "\t", ""), " step_end")
+				}
+				if !ok || got != x.want || labels[label] {
+					fail(fmt.Sprintf("command %d (%s) refers to %q, whose block is %q; want a label of its own holding %q", i, x.src, label, got, x.want))
+					break
+				}
+				labels[label] = true
+			}
+		}
+	}
+}
+
+// massTextsFile: one script with N commands that each take a different short inline text. Every command must refer to a
+// label of its own, in order of appearance, whose block holds its text (a 32-bit digest as de-duplication key collides a
+// few times among N = 200,000 texts; thorough 600,000).
+func massTextsFile(r *harness.Run, id, tier string) {
+	n := 200000
+	if tier == "thorough" {
+		n = 600000
+	}
+	if r.Expired() {
+		r.NotExhaustive("mass text file not run")
+		return
+	}
+	var sb strings.Builder
+	sb.WriteString("script S {\n")
+	for i := 0; i < n; i++ {
+		fmt.Fprintf(&sb, "\tc(\"t%x\")\n", i)
+	}
+	sb.WriteString("}\n")
+	res := comp.Compile(sb.String(), comp.Opts{Optimize: true})
+	r.Add("evaluations", 1)
+	r.Add("nontrivial", 1)
+	r.Set("mass_file_texts", n)
+	if res.Err != nil || res.Panic != "" {
+		r.Report(harness.Violation{Sig: id + ":mass-texts:rejected", Summary: fmt.Sprintf("script with %d inline texts rejected: %v %s", n, res.Err, firstLine(res.Panic)), Replay: map[string]interface{}{"texts": n, "generator": "massTextsFile"}})
+		return
+	}
+	lines := strings.Split(res.Out, "\n")
+	content := map[string]string{}
+	for i, l := range lines {
+		if strings.HasPrefix(l, "S_Text_") && strings.HasSuffix(l, ":") && i+1 < len(lines) {
+			content[strings.TrimSuffix(l, ":")] = lines[i+1]
+		}
+	}
+	bad, first, k := 0, "", 0
+	for _, l := range lines {
+		if !strings.HasPrefix(l, "\tc ") {
+			continue
+		}
+		label := strings.TrimPrefix(l, "\tc ")
+		if label != fmt.Sprintf("S_Text_%d", k) || content[label] != fmt.Sprintf("\t.string \"t%x$\"", k) {
+			bad++
+			if first == "" {
+				first = fmt.Sprintf("command %d (text t%x) refers to %s = %q", k, k, label, content[label])
+			}
+		}
+		k++
+	}
+	if k != n || bad > 0 {
+		r.Report(harness.Violation{Sig: id + ":mass-texts:label-differs", Summary: fmt.Sprintf("script with %d different inline texts: %d commands found, %d do not refer to a label of their own text, e.g. %s", n, k, bad, first), Replay: map[string]interface{}{"texts": n, "generator": "massTextsFile", "first": first}})
 	}
 }
